@@ -170,3 +170,23 @@ fn timedelta_scaling_unit_zero() {
     assert!(a * 1 == a);
     assert!(a * 0 == zero);
 }
+
+// ---- C16, BOUNDED: the conversion of a millisecond / microsecond date-time to the calendar type denotes the same instant
+// (read back with chrono's own accessors), on a band around the epoch that includes negative, non-whole-second instants.
+#[kani::proof]
+fn calendar_conversion_ms_bounded() {
+    let ms: i64 = kani::any();
+    kani::assume(-4096 <= ms && ms <= 4096);
+    let dt = DateTime::<unit::Millisecond>::new(ms);
+    let cr: chrono::DateTime<chrono::Utc> = dt.try_into().ok().unwrap();
+    assert!(cr.timestamp_millis() == ms);
+}
+
+#[kani::proof]
+fn calendar_conversion_us_bounded() {
+    let us: i64 = kani::any();
+    kani::assume(-4096 <= us && us <= 4096);
+    let dt = DateTime::<unit::Microsecond>::new(us);
+    let cr: chrono::DateTime<chrono::Utc> = dt.try_into().ok().unwrap();
+    assert!(cr.timestamp_micros() == us);
+}
